@@ -686,7 +686,17 @@ func (kgdb *KVInterfaceGDB) ListVertexLabels() ([]string, error) {
 	labelField := fmt.Sprintf("%s.v.label", kgdb.graph)
 	labels := []string{}
 	for i := range kgdb.kvg.idx.FieldTerms(labelField) {
-		labels = append(labels, i.(string))
+		// index terms outlive the elements that carried them: list only labels in use
+		label := i.(string)
+		inUse := false
+		for id := range kgdb.kvg.idx.GetTermMatch(context.Background(), labelField, label, 0) {
+			if v := kgdb.GetVertex(id, false); v != nil && v.Label == label {
+				inUse = true
+			}
+		}
+		if inUse {
+			labels = append(labels, label)
+		}
 	}
 	return labels, nil
 }
@@ -696,7 +706,17 @@ func (kgdb *KVInterfaceGDB) ListEdgeLabels() ([]string, error) {
 	labelField := fmt.Sprintf("%s.e.label", kgdb.graph)
 	labels := []string{}
 	for i := range kgdb.kvg.idx.FieldTerms(labelField) {
-		labels = append(labels, i.(string))
+		// index terms outlive the elements that carried them: list only labels in use
+		label := i.(string)
+		inUse := false
+		for id := range kgdb.kvg.idx.GetTermMatch(context.Background(), labelField, label, 0) {
+			if e := kgdb.GetEdge(id, false); e != nil && e.Label == label {
+				inUse = true
+			}
+		}
+		if inUse {
+			labels = append(labels, label)
+		}
 	}
 	return labels, nil
 }
